@@ -81,13 +81,15 @@ def cmp_norm(f):
     return None
 
 
-def guard_facts(fn, blk, st, sd=None):
+def guard_facts(fn, blk, st, sd=None, loops=True):
     """all facts known to hold when statement st of block blk executes: conditions of dominating CFG edges
     plus the conditions of the enclosing structured statements (which also covers `a || b` guards, whose
     then-branch is not dominated by a single edge)"""
     from .core import subst
     out = []
     for e in fn.cfg.dominating_edges(blk):
+        if not loops and e.get('term') in ('ForStmt', 'WhileStmt', 'DoStmt'):
+            continue      # loop entry / exit conditions
         out += edge_facts(e, sd)
     seen = {fact_str(f) for f in out}
     for g in fn.enclosing(st):
